@@ -21,8 +21,18 @@ type VerifGitEntry struct {
 	Sub     string
 	HasSub  bool
 	Key     string
-	Val     string
-	HasVal  bool
+	// NoSection: the variable appeared before any section header.
+	NoSection bool
+	Val       string
+	HasVal    bool
+	// Cont: number of backslash-newline line continuations git consumed
+	// while reading the value.
+	Cont int
+	// LeadDrop: number of significant characters git read after it had
+	// dropped unquoted white space that followed a double quote while the
+	// value was still empty (`k = "" x`: git's value is "x", the blank
+	// counts as leading white space).
+	LeadDrop int
 }
 
 type verifGitSrc struct {
@@ -82,7 +92,9 @@ func verifGitLower(c int) byte {
 
 // parse_value (git 2.39: a run of unquoted inner whitespace becomes as many
 // spaces; leading/trailing unquoted whitespace is dropped).
-func (s *verifGitSrc) parseValue() (string, bool) {
+func (s *verifGitSrc) parseValue() (string, int, int, bool) {
+	cont, leadDrop := 0, 0
+	sawQuote, dropPending := false, false
 	quote, comment := false, false
 	space := 0
 	var val []byte
@@ -90,9 +102,9 @@ func (s *verifGitSrc) parseValue() (string, bool) {
 		c := s.next()
 		if c == '\n' {
 			if quote {
-				return "", false
+				return "", 0, 0, false
 			}
-			return string(val), true
+			return string(val), cont, leadDrop, true
 		}
 		if comment {
 			continue
@@ -100,6 +112,8 @@ func (s *verifGitSrc) parseValue() (string, bool) {
 		if verifGitIsSpace(c) && !quote {
 			if len(val) > 0 {
 				space++
+			} else if sawQuote {
+				dropPending = true
 			}
 			continue
 		}
@@ -112,10 +126,14 @@ func (s *verifGitSrc) parseValue() (string, bool) {
 		for ; space > 0; space-- {
 			val = append(val, ' ')
 		}
+		if dropPending {
+			leadDrop++
+		}
 		if c == '\\' {
 			c = s.next()
 			switch c {
 			case '\n':
+				cont++
 				continue
 			case 't':
 				c = '\t'
@@ -125,13 +143,14 @@ func (s *verifGitSrc) parseValue() (string, bool) {
 				c = '\n'
 			case '\\', '"':
 			default:
-				return "", false
+				return "", 0, 0, false
 			}
 			val = append(val, byte(c))
 			continue
 		}
 		if c == '"' {
 			quote = !quote
+			sawQuote = true
 			continue
 		}
 		val = append(val, byte(c))
@@ -267,17 +286,15 @@ func VerifGitParse(src []byte) (entries []VerifGitEntry, ok bool) {
 			if c != '=' {
 				return nil, false
 			}
-			v, ok := s.parseValue()
+			v, cont, leadDrop, ok := s.parseValue()
 			if !ok {
 				return nil, false
 			}
-			e.Val, e.HasVal = v, true
+			e.Val, e.HasVal, e.Cont, e.LeadDrop = v, true, cont, leadDrop
 		}
-		if !haveBase {
-			// a variable before any section header: git's callers reject
-			// the key ("key does not contain a section"); treat as error.
-			return nil, false
-		}
+		// a variable before any section header is reported by
+		// `git config --list` under its bare name.
+		e.NoSection = !haveBase
 		entries = append(entries, e)
 	}
 }
